@@ -182,10 +182,7 @@ func (x *opPathIdent) Do(currentData, _ any) (dataToUse any, err error) {
 				continue
 			}
 
-			dataToUse = v.MapIndex(e).Interface()
-			if _, ok := dataToUse.(string); !ok {
-				dataToUse = convertToDecimalIfNumber(dataToUse)
-			}
+			dataToUse = convertNumberKindsToDecimal(v.MapIndex(e).Interface())
 			return
 		}
 
